@@ -200,7 +200,8 @@ def obligations(prop_id, build):
 # correspondence
 # ----------------------------------------------------------------------------
 
-def run_impl(sub, outdir, seed, n, replay=None, mode=None, timeout=1500, extra=None):
+def run_impl(sub, outdir, seed, n, replay=None, mode=None, timeout=None, extra=None):
+    timeout = timeout or int(os.environ.get("VERIF_IMPL_TIMEOUT", "420"))
     cmd = [IMPLRUN, sub, "-seed", str(seed), "-n", str(n), "-out", outdir]
     if replay:
         cmd += ["-replay", replay]
@@ -252,16 +253,21 @@ def corr_once(sub, seed, n, replay_lines=None, mode=None, keep=None, extra=None)
 
 def still_fails(sub, line, mode=None):
     try:
+        os.environ["VERIF_IMPL_TIMEOUT"] = "60"
         _, _, failing = corr_once(sub, 0, 0, replay_lines=[line], mode=mode)
         return bool(failing)
     except Exception:
         return False
+    finally:
+        os.environ.pop("VERIF_IMPL_TIMEOUT", None)
 
 
 def shrink(sub, line, list_fields, mode=None, budget=60):
     """Greedy delta-debugging on the JSON case: drop elements of the named list fields."""
     case = json.loads(line)
     tries = 0
+    t_end = time.time() + 90   # shrinking is a convenience: never let it dominate the check
+    budget_total = budget
 
     def get(c, path):
         for k in path:
@@ -269,7 +275,7 @@ def shrink(sub, line, list_fields, mode=None, budget=60):
         return c
 
     changed = True
-    while changed and tries < budget:
+    while changed and tries < budget and time.time() < t_end:
         changed = False
         for path in list_fields:
             path = path if isinstance(path, (list, tuple)) else [path]
@@ -280,9 +286,9 @@ def shrink(sub, line, list_fields, mode=None, budget=60):
             if not isinstance(lst, list):
                 continue
             chunk = max(1, len(lst) // 2)
-            while chunk >= 1 and tries < budget:
+            while chunk >= 1 and tries < budget and time.time() < t_end:
                 i = 0
-                while i < len(lst) and tries < budget:
+                while i < len(lst) and tries < budget and time.time() < t_end:
                     cand = json.loads(json.dumps(case))
                     cl = get(cand, path)
                     del cl[i:i + chunk]
